@@ -5,6 +5,8 @@ import (
 	_ "verifharness/pool"
 	_ "verifharness/timecache"
 	_ "verifharness/unit"
+	_ "verifharness/persist"
+	_ "verifharness/fifo"
 	_ "verifharness/shardid"
 )
 
